@@ -190,6 +190,18 @@ def rule_encoder_state_reset(ctx):
                     if s.si is not None and nd["k"] == "assign" and nd["dst"]["p"] == ["*"]:
                         if any(o.kind == "call" and callee_matches(o.data, r"cell::RefCell::borrow_mut$") and fld in self_fields_read(b, o.site.node["args"][0]) for o in origins(b, {"l": nd["dst"]["l"], "p": []}, transparent=("core::ops::deref::DerefMut::deref_mut",))):
                             resets.append(s)
+                # ... or a call of a helper method of the encoder that does the whole-value store on all of its paths
+                # (`self.reset_aux_vars(..)`)
+                for s in b.calls():
+                    c = callee_of(s)
+                    t = prog.body_for_callee(c, b) if c and c.get("decl") != "<indirect>" else None
+                    if t is None or t.kind == "closure" or not t.impl or t.impl.get("self_adt") != p:
+                        continue
+                    for s2 in t.sites():
+                        nd2 = s2.node
+                        if s2.si is not None and nd2["k"] == "assign" and nd2["dst"]["p"] == ["*"] and t.postdominates(s2, (0, -1)):
+                            if any(o.kind == "call" and callee_matches(o.data, r"cell::RefCell::borrow_mut$") and fld in self_fields_read(t, o.site.node["args"][0]) for o in origins(t, {"l": nd2["dst"]["l"], "p": []}, transparent=("core::ops::deref::DerefMut::deref_mut",))):
+                                resets.append(s)
                 # other uses: any read of self.fld (clones handed to helpers, borrows)
                 for s in b.sites():
                     nd = s.node
